@@ -383,8 +383,11 @@ def key_round(ctx, F, b, curves, rng):
                 part = (p.cv.bytes * 8) % digit != 0
                 F.add("%s:fails-for-valid-input%s" % (fn, ":field-octets-not-a-multiple-of-the-digit-size" if (part and p.order == "le") else ""),
                       "build %s\ncase %s\n%s" % (b.name, ln, a1 if f1["rc"] != "0" else a2), {"case": ln, "build": b.name}); ok = False; continue
-            priv = bytes.fromhex(f1["priv"]); comp = bytes.fromhex(f1["x"]); qx = bytes.fromhex(f2["x"]); qy = bytes.fromhex(f2["y"])
-            if f1["priv"] != f2["priv"] or comp[1:] != qx or comp[0] != 2 + (M.val(qy, p.order) & 1):
+            try:
+                priv = bytes.fromhex(f1["priv"]); comp = bytes.fromhex(f1["x"]); qx = bytes.fromhex(f2["x"]); qy = bytes.fromhex(f2["y"])
+            except ValueError:   # e.g. the neutral element came back as the "public key" (no second block)
+                priv = comp = qx = b""; qy = b"\x00"
+            if f1["priv"] != f2["priv"] or len(qx) != p.cv.bytes or comp[1:] != qx or comp[0] != 2 + (M.val(qy, p.order) & 1):
                 F.add("%s:forms-disagree" % fn, "build %s\ncase %s\n%s\n%s" % (b.name, ln, a1, a2), {"case": ln, "build": b.name}); ok = False; continue
             p.keys.append(dict(priv=priv, comp=comp, qx=qx, qy=qy, rnd=p.rnd[j], line=ln))
         if ok and len(p.keys) == 2: live.append(p)
@@ -491,5 +494,5 @@ def run(ctx):
         "hybrid encodings (06/07) whose prefix contradicts the parity of y, and the collisions of the raw forms with the SEC 1 forms on a one-octet field, may be refused; if accepted they must denote the stated point",
         "random octets -> private key: both documented maps are admitted (Ecdsa!SecretSet); key generation may fail only where 0 is among the admitted values",
         "memory safety is observed by AddressSanitizer on exactly-sized heap blocks in the ASan builds (UBSan is not enabled: the arithmetic headers have benign reports that are C01's subject)",
-        "unknown-point windows wider than the fixed-point window are not built here (finding of C02)",
+        "configurations hit by open findings of C02 are not built here (unknown-point window wider than the fixed-point window, affine BIN_PRECALC_DBL, comb window wider than a digit, affine + INTER)",
     ]
